@@ -10,6 +10,56 @@ from common import VERIF  # noqa: E402
 TECH = "contract harnesses on the real crate discharged by Kani/CBMC (full-domain symbolic, loop-free = complete; containers bounded and labelled) + Verus history lemmas over the same contract predicates + Verus on verbatim-extracted functions"
 
 CHECKS = {
+    "C13": {
+        "text": "LocalIdRegistry::{register_connection_id, set_active_connection_id_limit, connection_id_interest, on_retire_connection_id, on_packet_ack, on_packet_loss, on_handshake_confirmed} are under contract on the real registry built through the real ConnectionIdMapper (SmallVec, Memo caches and the crate's own check_consistency() run unchanged): consecutive sequence numbers, duplicate id rejected with the state unchanged, never more ids requested than min(peer limit, 3), RETIRE_CONNECTION_ID for a never-issued sequence number or for the packet's own destination id rejected, frame conditions and invariant preservation -- discharged by Kani/CBMC as bounded one-step obligations (K = 1 registered id, thorough tier). Verus proves for every history of register / retire / expire / ack / loss that sequence numbers are consecutive, ids and tokens pairwise distinct and the active count within the peer's limit (quick tier).",
+        "note": "Bounded (K = 1) and modular: the shared hash-map operations (LocalIdMap::try_insert/remove, InitialIdMap::remove) are replaced by contract stubs with a ghost log -- hashbrown/SipHash routing ('every datagram addressed to an unretired id reaches its connection') is TRUSTED, not proved. NOT discharged on the code (CBMC memory/time): LocalIdRegistry::on_timeout and on_transmit, all of PeerIdRegistry; the lemma steps for those operations show what the contract would give. The quick tier is the lemma layer only.",
+        "design": "5/C13",
+    },
+    "C09": {
+        "text": "Core kernels of RFC 9002 are under contract on the real code: loss::detect (sound up to the timer granularity: Lost => distance >= 3 or now + 1 ms > sent + threshold; now >= sent + threshold => Lost; distance >= 3 => Lost; the strict statement of the property is kept as an obligation and is a recorded known finding with its residual), Timestamp::has_elapsed, RttEstimator::{loss_time_threshold, update_rtt, weighted_average, pto_period, persistent_congestion_threshold} against exact integer formulas, Pto::{on_timeout, update, cancel, transmissions} with the frame condition that a PTO expiry touches no sent-packet state; discharged by Kani/CBMC (full domain where no Duration arithmetic is symbolic, otherwise bounded to RTT quantities < 4 s and labelled). Verus proves for every history of sent/acked/lost/discarded/PTO events that each packet is resolved exactly once, bytes_in_flight == sum of unresolved >= 0, and the PTO backoff doubles.",
+        "note": "Timestamp + Duration inside loss::detect is replaced (kani::stub) by its contract, which is checked only on a table of concrete instants (symbolic Duration round trips are SAT-hard): assumed dependency contract, listed. recovery::Manager (the caller that walks the sent-packet map, picks the path's RTT estimator and feeds the congestion controller) is NOT under contract: changes confined to it are not detected. The sent-packet map is bounded (K <= 3, thorough tier; insert could not be executed by CBMC).",
+        "design": "5/C09",
+    },
+    "C10": {
+        "text": "Every CongestionController method of CUBIC is under contract on the real f32 code (CBMC floating point is bit-precise): window floor 2*mds after every method, no wrap of the u32 window, bytes_in_flight exact on send/ack/loss/discard, no increase on loss/ECN, at most one reduction per recovery period, no growth while application-limited, persistent congestion collapses to the minimum, multiplicative_decrease within [2*mds, cwnd], on_mtu_update keeps the floor; BBRv2: minimum_window == 4*mds and the cwnd floor after set_cwnd; Path::transmission_constraint composition (amplification limit first, then the controller's verdict). Discharged by Kani/CBMC; f32 domains are partly bounded in the quick tier (window <= 2^30 bytes), full domain in the thorough tier.",
+        "note": "A-libm: cbrtf is a nondeterministic model; A-env: use_hystart_parameter() stubbed; CUBIC congestion-avoidance growth assumes the W_max >= 2 invariant stated in the harness; the BBRv2 state machine, the pacer and recovery::Manager's calls into the controller are not under contract; Path uses the crate's mock controller (composition only). Known finding: on_mtu_update saturates a window >= 2^32*old/new.",
+        "design": "5/C10",
+    },
+    "C14": {
+        "text": "Every TransportParameterValidator::validate impl is compared with an independent table transcribed from RFC 9000 18.2 / 7.4 over the full value domain (Ok <=> spec-valid, value unchanged, default == RFC default, id == RFC id), the role gating of the four server-only parameters is checked at the type level, the mapping of declared values into the connection's limits/ack settings is exact, and decode_parameters is put under bounded contracts (concrete ids and lengths, symbolic values, <= 2 parameters: duplicates rejected, server-only from client rejected, unknown ids ignored, defaults for absent parameters, encoder == independent TLV oracle). Discharged by Kani/CBMC. Deviations of the pinned code from the RFC table are kept as strict obligations with residuals (known findings) or were repaired (fix: commit for max_ack_delay).",
+        "note": "Glue unverified: SessionContext::on_transport_parameters (connection-id authentication against the handshake, mapping of decode errors to TRANSPORT_PARAMETER_ERROR). Millisecond -> Duration conversions are bounded to < 2^16 ms (64-bit division is SAT-hard). The block decoder is bounded (concrete shape per harness).",
+        "design": "5/C14",
+    },
+    "C15": {
+        "text": "limited::Key (expired / needs_update / counters) and KeySet::{new, encryption_phase, encrypt_packet, decrypt_packet, on_timeout} are under contract on the real code with an instrumented key (symbolic confidentiality / integrity limits, generation-tagged derivation, nondeterministic decrypt result): a key is never used beyond its confidentiality limit (Err(AEAD_LIMIT_REACHED) and nothing counted), every authentication failure is counted and the integrity limit closes the connection, a key update derives exactly one next generation. Discharged by Kani/CBMC (full domain; decrypt_packet bounded to one fixed-shape short-header packet); Verus lifts the contracts to every interleaving of encrypt / decrypt / timeout events. Three strict obligations taken from the property fail on the pinned tree and are recorded as known findings with residuals (an old-phase packet during the key-update window rolls the send keys back; encryption_phase can select the previous key; u16 generation overflow).",
+        "note": "A-aead: the AEAD is replaced by the instrumented key; the real cipher-suite limits in s2n-quic-crypto are not covered; ApplicationSpace calling encrypt_packet for every 1-RTT packet is glue. The 'never an older key' lemmas hold for the contract; the code violates two of their premises (known findings).",
+        "design": "5/C15",
+    },
+    "C18": {
+        "text": "Secret-control packets (StaleKey, ReplayDetected, UnknownPathSecret): decode agrees with an independent wire-layout oracle on every input up to 64 bytes (total, exact), encode produces the oracle's wire image, and authenticate returns Some iff the verify call succeeded, calls it exactly once and over exactly the packet minus its tag; control and datagram decoders are total on arbitrary inputs up to 48 bytes. Discharged by Kani/CBMC on the real dc crate, bounded as stated. The property's 'any byte change is rejected' fails for UnknownPathSecret (header not authenticated): known finding with residual.",
+        "note": "A-aead: seal/open/HMAC are harness-side stand-ins; verify_slices_are_equal (FFI) stubbed by an equality model. NOT under contract: the stream packet codec, control/datagram encoders (round trips did not finish), path::secret::map reaction to control packets (concurrent maps, sockets). Most C18 harnesses are thorough tier.",
+        "design": "5/C18",
+    },
+    "C19": {
+        "text": "sender::State::{new, next_key_id, update_for_stale_key} (returns and increments, max with the stale-key minimum, never re-issues) over the full domain, and receiver::State::post_authentication as a one-step contract from an arbitrary window state (symbolic max_seen, all 896 window bits, symbolic key id and witness id; three harnesses form a complete case split): Ok iff unseen, inside the window and not MAX; AlreadyExists iff marked; Unknown iff outside or MAX; accepted' == accepted + {k}; errors leave the state unchanged. Discharged by Kani/CBMC on the real dc crate; Verus proves for every packet/call sequence that each id is accepted at most once, every unseen id in the window is accepted, and issued ids strictly increase.",
+        "note": "A-bitvec-shift_end: the one dependency function BitSlice::shift_end is replaced by a word-level model (assumed contract; compared with the real function natively only). A-atomics: Mutex / fetch_update / fetch_max linearizability assumed; the sequential contract is what is proved. 'next_key_id panics instead of issuing 2^62-1' is not expressible (should-panic).",
+        "design": "5/C19",
+    },
+    "C04": {
+        "text": "Function contracts on the receiver-side flow controllers (connection and stream), the window synchroniser, the peer-initiated stream-count controller, the final-size cursor logic and the MAX_STREAMS decoder / RFC 9000 error-code constants are discharged on the real crates by Kani/CBMC over full value domains (loop-free: complete); the same predicates are verified a second time by Verus directly on the verbatim-extracted bodies of IncomingConnectionFlowControllerImpl, ReceiveStreamFlowController and RemoteInitiated (layer X, unbounded); Verus history lemmas derive the credit bound (advertised <= consumed + window, buffered <= window) and 'Err leaves the state unchanged' for every history. Proof level fits because each clause decomposes into per-call contracts over integers.",
+        "note": "Not decided (glue, stated): per-space frame gating (PROTOCOL_VIOLATION), STREAM_STATE_ERROR for unopened / wrong-direction streams, the ReceiveStream::on_data / on_reset error mapping (Kani cannot execute ReceiveStream within the budget), turning a transport::Error into CONNECTION_CLOSE. LocalInitiated/RemoteInitiated with parked wakers > 0 is bounded out. Trusted: Kani/CBMC/Verus/Z3, dev-profile semantics, harness builders, layer-X dependency stubs listed in the evidence.",
+        "design": "5/C04",
+    },
+    "C06": {
+        "text": "Claimed narrowly: the duplicate-detection window (check / insert against a pointwise set model with a symbolic witness, error leaves state unchanged, eviction report exact), the header-protection algebra (remove o apply == id, only the RFC 9001 5.4.1 bits change) and the AEAD nonce construction (iv XOR padded packet number) are discharged on the real core/crypto crates by Kani/CBMC for all inputs; a Verus lemma shows by induction over any sequence of check/insert events that a packet number is accepted at most once and nothing unseen inside the window is rejected. Authenticity itself is a cryptographic assumption.",
+        "note": "A-aead: AEAD unforgeability (aws-lc/ring through FFI) is assumed. Glue unverified: that every datagram passes unprotect -> decrypt -> duplicate check before frame handling (ApplicationSpace::validate_and_decrypt_packet), stateless-reset matching. Header-protection harnesses are bounded to 8-byte packets; the 129-iteration dev self-check loop of the public insert wrapper is stubbed in the quick tier and covered only for the first insert in the thorough tier.",
+        "design": "5/C06",
+    },
+    "C08": {
+        "text": "Packet-number truncation/expansion (three full-domain 62-bit symbols: expand(truncate(pn, la), r) == pn for every admissible receiver state, minimal length per RFC 9000 A.2), decode_packet_number against an independent transcription of the RFC 9000 A.3 pseudocode, wire bytes of truncated numbers, and TxPacketNumbers (strictly increasing, ACK of an unsent packet rejected, largest-acked monotone) are discharged on the real code by Kani/CBMC (loop-free, complete); Verus proves the RFC A.3 reconstruction lemma independently and the history lemmas (wire numbers strictly increase; ACK ranges are a subset of processed packets given the one-step contracts).",
+        "note": "The ACK-range one-step contracts (ack::Ranges::insert_packet_number_range, AckManager::on_processed_packet/on_transmit) could NOT be discharged on the real code: every bounded harness timed out in CBMC (VecDeque<Interval> symbolic execution), drafts are kept under probes/. The lemma part 'ACKs name only processed packets' is therefore conditional on undischarged contracts, and the ack-delay / prompt-acknowledgement clause is not decided. Glue unverified: packet spaces call on_processed_packet only after successful processing.",
+        "design": "5/C08",
+    },
     "C03": {
         "text": "Function contracts (pre/post over the whole abstract state, frame, representation invariant) on the sender-side flow controllers and the stream-count controller are discharged on the real transport crate by Kani/CBMC for all argument values (loop-free, full 62-bit domains: complete, not sampled); Verus then proves by induction over arbitrary-length histories, for any number of streams, that those contracts imply the stated limits. Proof level is right because the property is a safety invariant over integers that decomposes into per-call contracts.",
         "note": "Trusted: the glue between the contracted controllers and the wire (SendStream::on_transmit wiring, manager dispatch of MAX_* frames, transport-parameter plumbing), Kani/CBMC/Verus/Z3, dev-profile semantics, harness state builders generate every state satisfying the invariant.",
